@@ -300,7 +300,7 @@ void run_case(Choices &c, Ctx &ctx)
 	else if (c.coin(6))
 	{
 		// one very long token (string, member name, number or comment) inside a small document
-		size_t n = (size_t)c.range(600, 9000);
+		size_t n = c.coin(6) ? (size_t)c.range(9000, 70000) : (size_t)c.range(600, 9000);
 		std::string filler;
 		while (filler.size() < n)
 		{
@@ -312,8 +312,11 @@ void run_case(Choices &c, Ctx &ctx)
 			default: filler += "\xc3\xa4"; break;
 			}
 		}
-		switch (c.pickn(4))
+		switch (c.pickn(5))
 		{
+		case 4: // a long token, a short one, a long one again: what the tokener keeps between tokens
+			T = "[\"" + filler + "\",\"s\",\"" + std::string(n / 2, 'q') + "\",{\"" + filler + "\":1}]";
+			break;
 		case 0: T = "[1,\"" + filler + "\",2]"; break;
 		case 1: T = "{\"" + filler + "\":\"v\"}"; break;
 		case 2: T = "[" + std::string(n, '7') + ",1.5e" + std::string(n / 20, '0') + "1]"; break;
